@@ -2,5 +2,5 @@ CONSTANTS
   Programs <- Space
 INIT Init
 NEXT Next
-INVARIANTS ErrRight Exactly Once NotSelf Transitive FixedOrder Export
+INVARIANTS ErrRight Exactly Once NotSelf Transitive FixedOrder ReachAgrees Export
 CHECK_DEADLOCK FALSE
